@@ -77,7 +77,9 @@ def Cmp.test : Cmp → Nat → Nat → Bool
   | .gt, a, b => decide (b < a)
   | .ge, a, b => decide (b ≤ a)
 
-/-- photons counted in the listed modes (a mode beyond the state counts 0, as the native does) -/
+/-- photons counted in the listed modes.  A mode beyond the state counts 0 here; the native code reads past the
+    state instead (observed: a truth value that changes from call to call), so the correspondence only uses states at
+    least as wide as the largest mode index of the expression. -/
 def sumModes (st : List Nat) : List Nat → Nat
   | [] => 0
   | m :: ms => st.getD m 0 + sumModes st ms
